@@ -144,7 +144,8 @@ type Machine struct {
 	verdictDone map[uuid.UUID]bool
 	pre         []*PreJob
 	ended       bool
-	detail      string // non-deterministic detail for the log of the next failure
+	window      *SimRunner // non-nil while this runner is held inside Finish (its job is completing): API calls are issued from a goroutine and the runner is let go when the call blocks
+	detail      string     // non-deterministic detail for the log of the next failure
 	reloaded    bool
 	forcedJobs  int
 	forced      bool
@@ -426,7 +427,13 @@ func expectedAdmission(def definition.PipelineDef, running, waiting int) admissi
 
 func (m *Machine) definedPipelines() []string { return sortedKeys(m.w.Defs.Pipelines) }
 
-func (m *Machine) ActSchedule(t *rapid.T) {
+func (m *Machine) ActSchedule(t *rapid.T) { m.actSchedule(t, "") }
+
+// actSchedule: with onlyPipeline != "" the request goes to that pipeline while one of its jobs is completing
+// (m.window): the state in which the runner decides is then not determined, so the decision table is not
+// consulted; the monitors over the event log (C01, C06) and the queue invariants judge the outcome.
+func (m *Machine) actSchedule(t *rapid.T, onlyPipeline string) {
+	inWindow := onlyPipeline != ""
 	names := m.definedPipelines()
 	undefined := pct(t, 3, "undefinedPipeline")
 	var p string
@@ -435,6 +442,9 @@ func (m *Machine) ActSchedule(t *rapid.T) {
 		undefined = true
 	} else {
 		p = rapid.SampledFrom(names).Draw(t, "pipeline")
+	}
+	if inWindow {
+		p, undefined = onlyPipeline, false
 	}
 	victim := uuid.Nil.String()
 	if ord := m.order(); len(ord) > 0 {
@@ -467,6 +477,10 @@ func (m *Machine) ActSchedule(t *rapid.T) {
 	if err != nil {
 		m.w.tracef("  -> rejected: %v", err)
 		s1 := m.settle("rejected schedule")
+		if inWindow {
+			m.afterStep()
+			return
+		}
 		if exp != admReject {
 			m.fail("C05", "schedule request for %s rejected (%v) with running=%d waiting=%d: expected %s", p, err, len(running), len(waiting), exp)
 			m.fail("C03", "schedule request for %s rejected (%v) with running=%d waiting=%d although the queue has room", p, err, len(running), len(waiting))
@@ -501,7 +515,7 @@ func (m *Machine) ActSchedule(t *rapid.T) {
 	if undefined {
 		m.fail("C05", "schedule request for an undefined pipeline accepted")
 	}
-	if !info.Schedulable && !undefined {
+	if !info.Schedulable && !undefined && !inWindow {
 		m.fail("C15", "pipeline %s listed as not schedulable but an immediate schedule request is accepted", p)
 	}
 	if js == nil {
@@ -513,6 +527,9 @@ func (m *Machine) ActSchedule(t *rapid.T) {
 	if js.Created.Before(before.Add(-time.Millisecond)) || js.Created.After(after.Add(time.Millisecond)) {
 		m.detail = fmt.Sprintf("created %v call [%v, %v]", js.Created, before, after)
 		m.fail("C15", "job #%d: created timestamp outside the schedule call", rec.AcceptIdx)
+	}
+	if inWindow {
+		exp = "undetermined"
 	}
 	switch exp {
 	case admReject:
